@@ -196,6 +196,13 @@ func ProcessBulk(ctx context.Context, l backend.Ledger, bulk Bulk, continueOnFai
 					ResponseType: element.Action,
 				})
 			}
+		default:
+			// an element that cannot be executed is a failed element: it gets its
+			// own result, so that results keep the positions of the elements
+			bulkError(element.Action, ErrValidation, fmt.Errorf("unknown action '%s' for element %d", element.Action, i))
+			if !continueOnFailure {
+				return ret, errorsInBulk, nil
+			}
 		}
 	}
 	return ret, errorsInBulk, nil
